@@ -94,12 +94,13 @@ type SharedDecl struct {
 }
 
 type Contracts struct {
-	byFn    map[*ssa.Function]*FnSpec
-	list    []*FnSpec
-	ifaces  map[string]*IfaceSpec
-	shared  []*SharedDecl
-	errs    []string
-	fnIndex map[string]*ssa.Function // "pkgname:RelString" -> fn
+	byFn      map[*ssa.Function]*FnSpec
+	list      []*FnSpec
+	ifaces    map[string]*IfaceSpec
+	shared    []*SharedDecl
+	lockChans []string // field names of 1-slot channels used as mutexes
+	errs      []string
+	fnIndex   map[string]*ssa.Function // "pkgname:RelString" -> fn
 }
 
 func (c *Contracts) ForFn(fn *ssa.Function) *FnSpec {
@@ -405,6 +406,11 @@ func (c *Contracts) parseFile(prog *ssa.Program, p *packages.Package, sp *ssa.Pa
 						}
 					}
 				}
+			case "lock-chan":
+				if !need(2) {
+					continue
+				}
+				c.lockChans = append(c.lockChans, fs[1])
 			case "shared":
 				// shared <what> guarded_by <guard> <label>
 				if !need(5) {
